@@ -387,7 +387,7 @@ fn g_gap(rng: &mut Rng, must: bool) -> &'static str {
 fn g_comment(rng: &mut Rng, out: &mut String, fancy: bool) {
     // comment lines on their own lines; `fancy` comments contain punctuation of the grammar
     for _ in 0..rng.below(3) {
-        let c = if fancy { ["# a) note: x", "# (", "#", "# -> ,", "#:)"][rng.below(5)] } else { ["# plain note", "#", "# Another one"][rng.below(3)] };
+        let c = if fancy { ["# a) note: x", "# (", "#", "# -> ,", "#:)", "# na\u{ef}ve \u{2013} gr\u{fc}n", "#   "][rng.below(7)] } else { ["# plain note", "#", "# Another one"][rng.below(3)] };
         out.push_str(c); out.push('\n'); out.push_str(["", "  ", "\t"][rng.below(3)]);
     }
 }
@@ -434,6 +434,8 @@ fn g_render(name: &str, members: &[GMember], rng: &mut Rng, layout: u8) -> Strin
         }
         out.push('\n');
     }
+    // the grammar's `_` allows comment lines behind the last member (and in an interface without members)
+    if layout > 1 && rng.below(3) == 0 { g_comment(rng, &mut out, layout > 2); }
     out
 }
 fn g_canon_ty(t: &GTy) -> String {
@@ -509,6 +511,20 @@ fn search_idl_tree(rng: &mut Rng, budget: usize) -> Option<Value> {
         if let Some(why) = run_idl_tree(&text, &expect) {
             return Some(json!({"kind":"idl_tree","text":text,"expect":expect,"layout":layout,"why":why}));
         }
+        // outside comments the grammar is ASCII: a legal text without comments with one non-ASCII character put anywhere
+        // inside it (name, keyword, punctuation, gap) must be rejected - and never panic
+        if layout <= 1 && text.len() > 12 {
+            let pos = 10 + rng.below(text.len() - 11);
+            let ch = ["\u{e9}", "\u{fc}", "\u{b5}", "\u{aa}", "\u{8a9e}", "\u{f1}"][rng.below(6)];
+            let mut t = String::with_capacity(text.len() + 4);
+            t.push_str(&text[..pos]); t.push_str(ch); t.push_str(&text[pos..]);
+            let t2 = t.clone();
+            match std::panic::catch_unwind(move || zlink_core::idl::Interface::try_from(t2.as_str()).is_ok()) {
+                Ok(false) => {}
+                Ok(true) => return Some(json!({"kind":"idl_reject","text":t,"why":"a text with a non-ASCII character outside a comment was accepted"})),
+                Err(_) => return Some(json!({"kind":"idl_reject","text":t,"why":"parser panicked"})),
+            }
+        }
     }
     None
 }
@@ -543,7 +559,9 @@ fn search_idl(seed: u64, budget: usize) -> Option<Value> {
     // texts outside the grammar must be rejected: members cut short at every token, prefix operators doubled
     for head in ["interface a.b\n", "interface a.b\nmethod A() -> ()\n", "interface a.b\ntype T (a: int)\n# c\nerror E ()\n"] {
         for tail in ["error", "error E", "error E (", "error E (a", "error E (a:", "error E (a: int", "error E (a: int,", "method", "method M", "method M(", "method M()", "method M() ->", "method M() -> (",
-                     "type", "type T", "type T (", "type T (a,", "method M(a: ??int) -> ()", "method M(a: []??int) -> ()", "type T (a: ?[string]??bool)", "method M() -> (r: ? int)"] {
+                     "type", "type T", "type T (", "type T (a,", "method M(a: ??int) -> ()", "method M(a: []??int) -> ()", "type T (a: ?[string]??bool)", "method M() -> (r: ? int)",
+                     "type T (a: int, b)", "type T (a, b: int)", "type T (a,)", "type T (a: int,)", "method M(a: int,) -> ()", "method M() -> (a: int, )", "error E (a: int,)",
+                     "method M(a: (x: int,)) -> ()", "method M(a: (x,)) -> ()", "method M(a: (x: int y: int)) -> ()", "method M(a: (x y)) -> ()", "method M(a: (,)) -> ()", "method M(a: (x: int, y)) -> ()"] {
             let t = format!("{head}{tail}");
             let t2 = t.clone();
             let r = std::panic::catch_unwind(move || zlink_core::idl::Interface::try_from(t2.as_str()).is_ok());
